@@ -331,37 +331,3 @@ tq!(c21_pop_duplicates_len4, check_pop_duplicates, 4, 8);
 tq!(c21_cover_up_to_len4, check_cover_up_to, 4, 8);
 tq!(c21_drain_above_len4, check_drain_above, 4, 8);
 tq!(c21_drain_above_len5, check_drain_above, 5, 9);
-
-// ------------------------------------------------------------------ C11 ---
-use crate::verif_mocks::{loc, GStorage};
-
-fn any_valid(g: &GStorage) -> Location {
-    let l = loc(kani::any::<u8>() as u64 % 3, kani::any::<u8>() as u64);
-    kani::assume(g.valid(l));
-    l
-}
-
-/// ⟦Storage::is_ancestor⟧ (the real default search with skip-list jumps) on the family of graph
-/// shapes of `GStorage` — a branch forking off the MIDDLE of a multi-command segment, arbitrary
-/// segment lengths ≤ 40 and fork point, any valid choice of skip entries on the branch:
-/// the answer is `true` exactly when `search` is a proper ancestor of `start`; skip lists never
-/// change it; no `Bug`/error is reachable.
-#[kani::proof]
-#[kani::unwind(5)]
-fn c11_is_ancestor_matches_reachability() {
-    // X holds max cuts 1..=20, B forks at (X,12) and holds 13..=18
-    let g = GStorage::shape(20, 12, 6);
-    // search: any command of X; start: the first command of the branch
-    let m: u8 = kani::any();
-    kani::assume(m >= 1 && m <= 20);
-    let search = loc(1, m as u64);
-    let start = loc(2, 13);
-    let mut buf = TraversalBuffer::new();
-    let r = g.is_ancestor(search, start, &mut buf);
-    match r {
-        Ok(b) => assert!(b == g.proper_ancestor(search, start)),
-        Err(_) => panic!("is_ancestor failed on a valid graph"),
-    }
-    kani::cover!(g.skip_x && search.segment.get() == 1 && start.segment.get() == 2 && search.max_cut.get() > g.fork);
-    kani::cover!(g.proper_ancestor(search, start));
-}
